@@ -66,6 +66,18 @@ type c02Case struct {
 	// 1000+k = keep the first k bytes; -2-k = drop the last k+1 bytes.
 	Truncate int `json:"truncate"`
 	Chunks      []int      `json:"chunks"`
+	// Prior: thresholds announced on the decoder before Threshold (a backend may
+	// send SetCompression more than once; the last value is the one in effect).
+	Prior []int `json:"prior,omitempty"`
+	// Later: further segments of the stream, each preceded by a threshold change on
+	// the live decoder. Every segment before the last ends with a valid frame, so
+	// the change happens between two Decode calls as it does in the session handlers.
+	Later []c02Segment `json:"later,omitempty"`
+}
+
+type c02Segment struct {
+	Threshold int        `json:"threshold"`
+	Frames    []c02Frame `json:"frames"`
 }
 
 // c02Data: payload bytes starting with a packet id VarInt (0x7f) that no state
@@ -354,9 +366,16 @@ func c02Run(c c02Case) verifkit.Result {
 	for _, f := range c.Frames {
 		stream = append(stream, c02Bytes(f, c.Threshold)...)
 	}
+	var bounds []int
+	for _, seg := range c.Later {
+		bounds = append(bounds, len(stream))
+		for _, f := range seg.Frames {
+			stream = append(stream, c02Bytes(f, seg.Threshold)...)
+		}
+	}
 	stream = stream[:c02CutAt(c.Truncate, len(stream))]
 	var out c02Outcome
-	w := verifkit.Watch(15*time.Second, "codec.(*Decoder)", func() { out = c02Judge(c, stream) })
+	w := verifkit.Watch(15*time.Second, "codec.(*Decoder)", func() { out = c02Judge(c, stream, bounds) })
 	switch w.Outcome {
 	case verifkit.Deadlocked:
 		return verifkit.Fail("blocked:Decode", "Decode is parked in a sync primitive with all bytes delivered:\n%s", w.Stack)
@@ -371,7 +390,7 @@ func c02Run(c c02Case) verifkit.Result {
 	return verifkit.Result{Labels: out.labels, NonTrivial: out.nt}
 }
 
-func c02Judge(c c02Case, stream []byte) (out c02Outcome) {
+func c02Judge(c c02Case, stream []byte, bounds []int) (out c02Outcome) {
 	dir, capBytes := proto.ClientBound, c02CapCB
 	if c.ServerBound {
 		dir, capBytes = proto.ServerBound, c02CapSB
@@ -382,7 +401,10 @@ func c02Judge(c c02Case, stream []byte) (out c02Outcome) {
 	}
 	rd := &c02Chunked{data: stream, chunks: c.Chunks}
 	dec := NewDecoder(rd, dir, logr.Discard())
-	if threshold >= 0 {
+	for _, p := range c.Prior {
+		dec.SetCompressionThreshold(p)
+	}
+	if threshold >= 0 || len(c.Prior) > 0 {
 		dec.SetCompressionThreshold(threshold)
 	}
 	ref := verifkit.NewRefReader(stream)
@@ -396,6 +418,10 @@ func c02Judge(c c02Case, stream []byte) (out c02Outcome) {
 		}
 	}()
 	label(fmt.Sprintf("threshold=%d", threshold))
+	if len(c.Prior) > 0 {
+		label("threshold-announced-more-than-once")
+	}
+	seg := 0
 
 	// one guarded Decode call
 	type res struct {
@@ -444,6 +470,28 @@ func c02Judge(c c02Case, stream []byte) (out c02Outcome) {
 		var werr error
 		start := ref.Pos
 		empties := 0
+		if differential && seg < len(bounds) && ref.Pos == bounds[seg] && rd.pos == ref.Pos {
+			// the peer announces another threshold between two frames
+			old := threshold
+			threshold = c.Later[seg].Threshold
+			if threshold < 0 {
+				threshold = -1
+			}
+			dec.SetCompressionThreshold(threshold)
+			seg++
+			switch {
+			case old < 0 && threshold >= 0:
+				label("threshold-change:off->on")
+			case old >= 0 && threshold < 0:
+				label("threshold-change:on->off")
+			case old >= 0 && threshold > old:
+				label("threshold-change:raised")
+			case old >= 0 && threshold < old:
+				label("threshold-change:lowered")
+			default:
+				label("threshold-change:same")
+			}
+		}
 		for differential {
 			if !c02MinimalPrefixAt(stream, ref.Pos) {
 				differential = false
@@ -701,6 +749,9 @@ var c02Thresholds = []int{-1, 0, 1, 256, 1 << 20, 64, 2, 16384}
 // generator weights (2^20 is costly: payloads around it are a megabyte)
 var c02ThresholdsWeighted = []int{-1, -1, 0, 0, 1, 1, 256, 256, 64, 2, 16384, 1 << 20}
 
+// thresholds used for repeated announcements (payloads around them stay small)
+var c02ThresholdsCheap = []int{-1, 0, 1, 2, 64, 256, 300, 16384}
+
 func c02GenCase(t *rapid.T) c02Case {
 	c := c02Case{
 		ServerBound: rapid.Bool().Draw(t, "serverbound"),
@@ -711,6 +762,46 @@ func c02GenCase(t *rapid.T) c02Case {
 	big := false
 	for i := 0; i < n; i++ {
 		c.Frames = append(c.Frames, c02GenFrame(t, &c, &big))
+	}
+	// the threshold is announced more than once: before the first frame and/or
+	// between frames of a live decoder
+	if rapid.IntRange(0, 3).Draw(t, "prior") == 0 {
+		c.Prior = rapid.SliceOfN(rapid.SampledFrom(c02ThresholdsCheap), 1, 3).Draw(t, "priorThresholds")
+	}
+	if rapid.IntRange(0, 2).Draw(t, "segments") == 0 {
+		ns := rapid.IntRange(1, 2).Draw(t, "later")
+		prev := &c.Frames
+		prevTh := c.Threshold
+		for i := 0; i < ns; i++ {
+			// the previous segment ends with a valid frame (Decode returns there)
+			if l := len(*prev); l == 0 || (*prev)[l-1].Kind != "valid" {
+				*prev = append(*prev, c02Frame{Kind: "valid", PLen: rapid.IntRange(1, 400).Draw(t, "sepLen"), Seed: rapid.Uint32().Draw(t, "sepSeed"), Level: -1})
+			}
+			seg := c02Segment{Threshold: rapid.SampledFrom(c02ThresholdsCheap).Draw(t, "segThreshold")}
+			tmp := c
+			tmp.Threshold = seg.Threshold
+			// payload sizes around the previous threshold are the ones a stale
+			// threshold would judge differently
+			nf := rapid.IntRange(1, 4).Draw(t, "segFrames")
+			for j := 0; j < nf; j++ {
+				f := c02GenFrame(t, &tmp, &big)
+				if prevTh >= 0 && prevTh <= 1<<16 && rapid.Bool().Draw(t, "aroundOld") {
+					switch f.Kind {
+					case "valid", "plain":
+						f.PLen = max(prevTh+rapid.IntRange(-1, 1).Draw(t, "oldDelta"), 1)
+					case "claimed":
+						if f.Mut == "" && int(f.Claimed) == f.PLen {
+							f.PLen = max(prevTh+rapid.IntRange(-1, 1).Draw(t, "oldDelta"), 1)
+							f.Claimed = int32(f.PLen)
+						}
+					}
+				}
+				seg.Frames = append(seg.Frames, f)
+			}
+			c.Later = append(c.Later, seg)
+			prev = &c.Later[len(c.Later)-1].Frames
+			prevTh = seg.Threshold
+		}
 	}
 	if rapid.IntRange(0, 4).Draw(t, "cut") == 0 {
 		c.Truncate = rapid.OneOf(
@@ -734,7 +825,7 @@ func c02GenCase(t *rapid.T) c02Case {
 	return c
 }
 
-const c02Rule = "1..6 frame descriptors {valid, empty, explicit length prefix (negative, 2^21-1, 2^21, 2^31-1, body present or not), non-minimal prefix, uncompressed body of threshold-1/threshold/threshold+1 bytes in compression mode, negative claimed size, claimed size in {threshold-1, threshold, threshold+1, cap-1, cap, cap+1, 2 MiB+1, 2^31-1, ...} x zlib body inflating to exactly/fewer/more bytes, bad Adler-32, truncated deflate, trailing bytes, bad header, garbage}, thresholds {-1,0,1,2,64,256,16384,2^20}, both directions, optional truncation, chunked transport; oracle: no panic, no read after EOF, transport position == frame end after every accepted frame, allocation per Decode <= 2^21-1 + direction cap + 1 MiB, and frame-by-frame the same accept/reject decision and payload as verifkit.RefReadFrame up to the first rejection (differential only while length prefixes are minimal and <=10 consecutive empty frames); non-trivial = the reference rejects a frame for a reason other than truncation, or an accepted compressed-mode payload of threshold-1/threshold/threshold+1/cap bytes"
+const c02Rule = "1..6 frame descriptors {valid, empty, explicit length prefix (negative, 2^21-1, 2^21, 2^31-1, body present or not), non-minimal prefix, uncompressed body of threshold-1/threshold/threshold+1 bytes in compression mode, negative claimed size, claimed size in {threshold-1, threshold, threshold+1, cap-1, cap, cap+1, 2 MiB+1, 2^31-1, ...} x zlib body inflating to exactly/fewer/more bytes, bad Adler-32, truncated deflate, trailing bytes, bad header, garbage}, thresholds {-1,0,1,2,64,256,16384,2^20}, the threshold optionally announced several times before the first frame and changed up to twice between frames of the live decoder (off->on, on->off, raised, lowered; frames after a change sized around the old and the new threshold, judged against the one in effect), both directions, optional truncation, chunked transport; oracle: no panic, no read after EOF, transport position == frame end after every accepted frame, allocation per Decode <= 2^21-1 + direction cap + 1 MiB, and frame-by-frame the same accept/reject decision and payload as verifkit.RefReadFrame up to the first rejection (differential only while length prefixes are minimal and <=10 consecutive empty frames); non-trivial = the reference rejects a frame for a reason other than truncation, or an accepted compressed-mode payload of threshold-1/threshold/threshold+1/cap bytes"
 
 func TestVerif_C02(t *testing.T) {
 	verifkit.Check(t, "C02", "hostile-stream", c02Rule, c02GenCase, c02Run)
